@@ -87,6 +87,12 @@ def cli_roundtrip_rule(chk: Check, ctx: Any, rule: str) -> None:
                 problems.append(f"routine table {i1} is read back as {i2}")
             if cn1 != cn2:
                 problems.append(f"coroutine names {cn1} are read back as {cn2}")
+            offs2 = [op.attrs["offset"] for r in ops2 for op in r]
+            if offs2 != list(range(1, len(offs2) + 1)):
+                bad = next((i for i, o in enumerate(offs2) if o != i + 1), 0)
+                chk.violation(rule, key, rr, f"program `{name}`: the ops read from the document are not numbered by their 1-based position across all routines "
+                                             f"(the op at position {bad + 1} gets number {offs2[bad]}): the jump parameters of the document no longer denote their ops")
+                continue
             g1, e1 = compiled_graph(I, ops, branch, ends)
             g2, e2 = compiled_graph(I, ops2, branch, ends)
             for ri, (a, b) in enumerate(zip(e2, e1)):
